@@ -214,6 +214,7 @@ func (wt writeTxn) Create(v interface{}) error {
 		return err
 	}
 
+	vhook("bs.committed", "create", wt.id)
 	wt.st.callOnChange(wt.id, nil, v)
 	return nil
 }
@@ -259,6 +260,7 @@ func (wt writeTxn) Update(v interface{}) error {
 		return err
 	}
 
+	vhook("bs.committed", "update", wt.id)
 	wt.st.callOnChange(wt.id, before, v)
 	return nil
 }
@@ -301,6 +303,7 @@ func (wt writeTxn) Delete() error {
 		return err
 	}
 
+	vhook("bs.committed", "delete", wt.id)
 	wt.st.callOnChange(wt.id, before, nil)
 	return nil
 }
@@ -365,6 +368,7 @@ func (st *Store) Init(cb func(add func(id string, v interface{})) error) error {
 			return adderr
 		}
 
+		vhook("bs.init.fn")
 		// Write resources
 		for id, v := range entries {
 			rname := []byte(st.prefix + id)
@@ -382,12 +386,14 @@ func (st *Store) Init(cb func(add func(id string, v interface{})) error) error {
 			created[id] = v
 		}
 
+		vhook("bs.init.written")
 		// Call OnChange callback
 		for id, v := range created {
 			st.callOnChange(id, nil, v)
 		}
 
 		// Set init flag key
+		vhook("bs.init.marker")
 		return txn.Set(initKey, nil)
 	})
 }
